@@ -13,6 +13,7 @@ class Impl:
     def __init__(self, spec, safe=False, model_cls=None, prepare=None, edited=False):
         self.spec = spec
         self.edited = edited
+        self.start_repr = 'float'      # how the start state is handed over: float64 array, int64 array, strided view
         if edited:
             # the same definition reached through edits: reactions added one by one, rejected create_reaction calls in between
             # (a rate that names a species that does not exist; a delay parameter that is a species), the start state set on
@@ -58,7 +59,14 @@ class Impl:
             order = self.model.get_species_list()
             self.model.set_species({s: float(xv[i]) for i, s in enumerate(order)})      # through the Model, after the interface exists
         else:
-            self.iface.py_set_initial_state(np.array(xv, dtype=float))
+            arr = np.array(xv, dtype=float)
+            if self.start_repr == 'int' and np.all(arr == np.round(arr)):
+                arr = arr.astype(np.int64)                  # the same counts as an integer array
+            elif self.start_repr == 'strided':
+                base = np.full(2 * len(arr), -7.0)
+                base[::2] = arr
+                arr = base[::2]                              # a non-contiguous view with the same values
+            self.iface.py_set_initial_state(arr)
         self.iface.py_set_initial_time(float(t0))
         if dt is not None:
             self.iface.py_set_dt(float(dt))
